@@ -482,7 +482,7 @@ def c08(res, rng, tier):
                       {"kind": "impl", "history": "dict S s:61 i:1 S b:61 i:2 G z:61", "occurrences": multi_seen})
     res.coverage.update({
         "evaluations": len(lines), "distinct_nontrivial": nontriv, "exhaustive": True,
-        "rule": "all op sequences of length <= %d over {Set,Del,Get} x the 10-key colliding alphabet (exhaustive), plus %d random histories of 300-6000 ops over the C07 lattice with Len after every op; every output compared with the extracted RefDict and the Dict model; non-trivial = history executed and compared" % (3 if q else 4, nlong),
+        "rule": "all op sequences of length <= %d over {Set,Del,Get} x the 10-key colliding alphabet (exhaustive), plus %d random histories of 300-6000 ops over the C07 lattice with Len after every op; every output compared with the extracted RefDict and the Dict model; values include nil (a Dict used as a set); the leading run of Sets goes through NewDictWithData / NewDictWithSizeHint / NewDict depending on its length; multi-collision family with the string kinds inside Tuples, Ref, Call; non-trivial = history executed and compared" % (3 if q else 4, nlong),
         "programs": len(lines), "disagreements_checked": len(lines), "multi_match_gets": multi_seen,
         "exhaustive_length": 3 if q else 4})
     res.samples = [{"history": lines[i][:200], "impl": impl[i][:200]} for i in (0, 31, 1000, len(lines) - 2)]
